@@ -480,7 +480,8 @@ func xExec(t *testing.T, op xOp, sock **xSock) (line string) {
 
 // ---------- generators
 
-var xHosts = []string{"nuts.nl", "node.example.org", "Example.COM", "example.com", "www.example.net", "sub.example.org", "localhost", "LOCALHOST", "foo.localhost", "node.local", "node.lan",
+var xHosts = []string{"localhost.", "node.local.", "example.com.", "www.example.org.", "a.test.", "a.invalid.", "127.0.0.1.", "127.0.0.1.:8080", "10.0.0.1.", "localhost.:443",
+	"node.example.net.:8443", "nuts.nl.:443", "sub.nuts.nl.", "localhost..", "[::1].", "nuts.nl", "node.example.org", "Example.COM", "example.com", "www.example.net", "sub.example.org", "localhost", "LOCALHOST", "foo.localhost", "node.local", "node.lan",
 	"a.corp", "a.home", "a.host", "a.invalid", "a.test", "a.localdomain", "a.example", "example", "nuts.nl.", "nuts", "test", "nl", "a.b.c.d.nl", "xn--nts-hoa.nl", "127.0.0.1", "10.0.0.1",
 	"127.1", "0x7f.0.0.1", "2130706433", "[::1]", "[fe80::1]", "::1", "1.2.3.4.", "256.1.1.1", "a_b.nl", "-.nl", "nuts.nl:443", "nuts.nl:", "nuts.nl:80", "localhost:8080", "127.0.0.1:443",
 	"[::1]:443", "user@nuts.nl", "user:pw@nuts.nl", "user@localhost", "nuts.nl@localhost", "nuts.nl%2F", "nuts.nl%00", "é.nl", "日本.jp", "nuts.nl\\", "nuts nl", "", ".", "..", ".nl", "nl.", "example.com.", "a.example.com", "example.comx", "notexample.com", "example.co", "my-example.org", "test.nl", "corp.nl"}
